@@ -314,3 +314,283 @@ if __name__ == "__main__":
         r["key"] = key(r)
     json.dump({"pragmas": inv, "mallocs": malloc_inventory(repo)}, sys.stdout, indent=1)
     print()
+
+
+# ======================================================================================================
+# canonical inventory (v2): invariant under renaming of static functions and locals, `private(x)` vs a
+# declaration of x inside the loop body, moving a loop body into a static helper, renaming of heap temporaries.
+# It identifies, per parallel loop: the external-linkage functions that reach it, the loop bound and `if` clause
+# (parameters by position), the SHARED objects written inside the parallel region (pointer parameters by position,
+# heap temporaries by element type and element count, followed through calls into helpers) and the non-private
+# function-scope locals written there (a race; must be empty); per malloc: reaching entry points, element type,
+# element count.  Not identified: names of statics/locals, private lists, index expressions, statement order.
+# ======================================================================================================
+
+_ASSIGN = r"(?:=(?!=)|\+=|-=|\*=|/=|\+\+|--)"
+_DECL_RE = re.compile(r"(?:^|(?<=[;{}]))\s*((?:const\s+)?(?:unsigned\s+)?(?:int64_t|int|double|char|long|float))(?:\s+|(?=\())([^;(){}]*?(?:\(\*\s*\w+\s*\)[^;{}]*?)?);", re.S)
+
+
+def _writes(text):
+    """(identifier, has_index) for every `x = …`, `x[..][..] op= …`, `x++`, `++x` in text (brackets balanced)"""
+    out = []
+    for m in re.finditer(r"(?<![\w\.>])([A-Za-z_]\w*)\s*(?=[\[=+\-*/])", text):
+        j = m.end()
+        idx = False
+        while j < len(text) and text[j] == "[":
+            j = match_brace(text, j, "[", "]") + 1
+            idx = True
+            while j < len(text) and text[j] in " \t\n":
+                j += 1
+        if re.match(_ASSIGN, text[j:j + 2]) and not (text[j:j + 2] in ("++", "--") and False):
+            out.append((m.group(1), idx))
+    for m in re.finditer(r"(?:\+\+|--)\s*([A-Za-z_]\w*)", text):
+        out.append((m.group(1), False))
+    for m in re.finditer(r"\*\s*([A-Za-z_]\w*)\s*%s" % _ASSIGN, text):
+        out.append((m.group(1), True))
+    return out
+
+
+def _all_functions(repo):
+    cdir = os.path.join(repo, "c")
+    out = {}
+    for f in sorted(os.listdir(cdir)):
+        if not f.endswith((".c", ".cpp")):
+            continue
+        src = strip_comments(open(os.path.join(cdir, f)).read())
+        for name, a, b, hdr in functions(src):
+            if name in ("if", "for", "while", "switch"):
+                continue
+            out[name] = dict(file="c/" + f, name=name, header=hdr, body=src[a:b + 1], start=a, end=b, src=src,
+                             static=bool(re.search(r"\bstatic\b", hdr)))
+    return out
+
+
+def _params(header):
+    a = header.index("(")
+    b = match_brace(header, a, "(", ")")
+    res = []
+    for prm in split_top(header[a + 1:b]):
+        prm = " ".join(prm.split())
+        if not prm or prm == "void":
+            continue
+        m = re.search(r"\(\*\s*([A-Za-z_]\w*)\s*\)", prm) or re.search(r"([A-Za-z_]\w*)\s*(?:\[[^\]]*\])*$", prm)
+        name = m.group(1)
+        is_ptr = "*" in prm or "[" in prm or "ndarray" in prm
+        res.append((name, is_ptr))
+    return res
+
+
+def _decls_anywhere(text):
+    """name -> kind for every declaration at any depth of `text`"""
+    decls = {}
+    for m in _DECL_RE.finditer(text):
+        for part in split_top(m.group(2)):
+            part = part.split("=")[0].strip()
+            mm = re.match(r"^\(\*\s*([A-Za-z_]\w*)\s*\)", part)
+            if mm:
+                decls[mm.group(1)] = "pointer"
+                continue
+            mm = re.match(r"^(\**)\s*([A-Za-z_]\w*)\s*((?:\[[^\]]*\])*)$", part)
+            if mm:
+                decls[mm.group(2)] = "pointer" if mm.group(1) else ("array" if mm.group(3) else "scalar")
+    return decls
+
+
+def _root(expr):
+    e = expr.strip()
+    while True:
+        e2 = re.sub(r"^\(\s*(?:const\s+)?(?:unsigned\s+)?(?:double|int64_t|int|char|long|float)\b[^()]*(?:\([^()]*\)[^()]*)*\)\s*", "", e)   # cast
+        e2 = e2.lstrip("&* \t")
+        if e2.startswith("(") and match_brace(e2, 0, "(", ")") == len(e2) - 1:
+            e2 = e2[1:-1].strip()
+        if e2 == e:
+            break
+        e = e2
+    m = re.match(r"[A-Za-z_]\w*", e)
+    return m.group(0) if m else None
+
+
+def _canon_expr(expr, params, loopvar=None):
+    pidx = {n: k for k, (n, _) in enumerate(params)}
+
+    def sub(m):
+        w = m.group(0)
+        if w == loopvar:
+            return "V"
+        if w in pidx:
+            return "P%d" % pidx[w]
+        return w
+    return re.sub(r"\s+", " ", re.sub(r"[A-Za-z_]\w*", sub, expr)).strip()
+
+
+def _calls(text, known):
+    for m in re.finditer(r"\b([A-Za-z_]\w*)\s*\(", text):
+        if m.group(1) in known:
+            close = match_brace(text, m.end() - 1, "(", ")")
+            yield m.group(1), [a.strip() for a in split_top(text[m.end():close])]
+
+
+def _alias_roots(fn, macros):
+    """local pointer -> root object: ('param', k) | ('temp', elem, count) | ('ptr', name)"""
+    params = _params(fn["header"])
+    pidx = {n: k for k, (n, _) in enumerate(params)}
+    decls = _decls_anywhere(fn["body"])
+    roots = {n: ("param", k) for n, k in pidx.items()}
+    body = fn["body"]
+    for m in re.finditer(r"([A-Za-z_]\w*)\s*=\s*(?:\([^;=]*?\)\s*)?(malloc|calloc)\s*\(", body):
+        close = match_brace(body, m.end() - 1, "(", ")")
+        arg = " ".join(body[m.end():close].split())
+        if m.group(2) == "calloc":
+            parts = split_top(arg)
+            arg = "%s * %s" % (parts[1].strip(), parts[0].strip()) if len(parts) == 2 else arg
+        mm = re.match(r"sizeof\s*\(([^)]*(?:\[[^\]]*\])*[^)]*)\)\s*\*\s*(.*)$", arg)
+        elem, count = (mm.group(1).strip(), mm.group(2).strip()) if mm else ("?", arg)
+        count = re.sub(r"\b(\w+)\b", lambda q: macros.get(q.group(1), q.group(1)), count)
+        roots[m.group(1)] = ("temp", elem, _canon_expr(count, params))
+    changed = True
+    while changed:
+        changed = False
+        for m in re.finditer(r"(?<![\w\]\.>])([A-Za-z_]\w*)\s*=(?!=)\s*([^;]+);", body):
+            x, rhs = m.group(1), m.group(2)
+            if decls.get(x) != "pointer" or x in roots or "malloc" in rhs or "calloc" in rhs or rhs.strip() == "NULL":
+                continue
+            r = _root(rhs)
+            if r in roots:
+                roots[x] = roots[r]
+                changed = True
+    return roots, decls, params
+
+
+def _written_params(funcs, macros):
+    """function name -> set of parameter positions through which the function (transitively) writes"""
+    info = {n: _alias_roots(f, macros) for n, f in funcs.items()}
+    wp = {n: set() for n in funcs}
+    for n, f in funcs.items():
+        roots, decls, params = info[n]
+        inner = f["body"][1:-1]
+        for x, idx in _writes(inner):
+            r = roots.get(x)
+            if idx and r and r[0] == "param":
+                wp[n].add(r[1])
+    changed = True
+    while changed:
+        changed = False
+        for n, f in funcs.items():
+            roots, decls, params = info[n]
+            for g, args in _calls(f["body"][1:-1], funcs):
+                for k in wp.get(g, ()):
+                    if k < len(args):
+                        r = roots.get(_root(args[k]) or "")
+                        if r and r[0] == "param" and r[1] not in wp[n]:
+                            wp[n].add(r[1])
+                            changed = True
+    return wp, info
+
+
+def _reachers(funcs):
+    callers = {n: set() for n in funcs}
+    for n, f in funcs.items():
+        for g, _ in _calls(f["body"][1:-1], funcs):
+            if g != n:
+                callers[g].add(n)
+
+    def entries(name):
+        seen, todo, res = set(), [name], set()
+        while todo:
+            x = todo.pop()
+            if x in seen:
+                continue
+            seen.add(x)
+            if not funcs[x]["static"]:
+                res.add(x)
+            todo += list(callers[x])
+        return sorted(res)
+    return entries
+
+
+def canonical(repo):
+    funcs = _all_functions(repo)
+    macros = {}
+    for f in set(v["file"] for v in funcs.values()):
+        macros.update(dict((k, v.strip("()")) for k, v in re.findall(r"^[ \t]*#define\s+(\w+)\s+(\(?-?\d+\)?)\s*$", strip_comments(open(os.path.join(repo, f)).read()), re.M)))
+    wp, info = _written_params(funcs, macros)
+    entries = _reachers(funcs)
+    prag, mall = [], []
+    for n, f in sorted(funcs.items()):
+        roots, decls, params = info[n]
+        body = f["body"]
+        # ---- mallocs of this function
+        for x, r in sorted(roots.items()):
+            if r[0] == "temp" and re.search(r"\b%s\s*=\s*(?:\([^;=]*?\)\s*)?(?:malloc|calloc)" % re.escape(x), body):
+                mall.append(dict(file=f["file"], function=n, var=x, elem=r[1], count=r[2],
+                                 key="%s|%s|%s|%s" % (f["file"], ",".join(entries(n)), r[1], r[2])))
+        # ---- pragmas of this function
+        for m in re.finditer(r"^[ \t]*#pragma\s+omp\b((?:[^\n\\]|\\\n|\\.)*)$", body, re.M):
+            clause = re.sub(r"\s+", " ", re.sub(r"\\\n", " ", m.group(1))).strip()
+            directive = re.split(r"\b(?:first|last)?private\b|\bif\b|\bshared\b|\breduction\b|\bschedule\b", clause)[0].strip()
+            priv = set()
+            for pm in re.finditer(r"\b(?:first|last)?private\s*\(([^)]*)\)", clause):
+                priv |= {x.strip() for x in pm.group(1).split(",") if x.strip()}
+            im = re.search(r"\bif\s*\(", clause)
+            cond = clause[im.end():match_brace(clause, im.end() - 1, "(", ")")].strip() if im else ""
+            cond = re.sub(r"\b(\w+)\b", lambda q: macros.get(q.group(1), q.group(1)), cond)
+            other = sorted(set(re.findall(r"\b(shared|reduction|schedule|collapse|nowait|num_threads)\b", clause)))
+            loop = analyse_loop(body, m.end())
+            if loop is None:
+                prag.append(dict(file=f["file"], function=n, key="%s|%s|%s|UNPARSED" % (f["file"], ",".join(entries(n)), clause)))
+                continue
+            var, bound, lbody = loop
+            inner_decl = _decls_anywhere(lbody)
+            private = set(priv) | set(inner_decl) | {var}
+            shared_locals, wroots = set(), set()
+
+            def classify(x, direct_assign):
+                """x written in the region; direct_assign: the variable itself (not an element reached through it)"""
+                if x in inner_decl:
+                    if inner_decl[x] == "pointer" and not direct_assign:
+                        pass   # pointee decided below through the alias root, unless allocated in the body
+                    else:
+                        return
+                kind = decls.get(x) or ("pointer" if any(p_ == x and ip for p_, ip in params) else None)
+                if kind in ("scalar", "array") or (kind == "pointer" and direct_assign):
+                    if x not in private:
+                        shared_locals.add(x)
+                    return
+                r = roots.get(x)
+                if x in inner_decl and (r is None or re.search(r"\b%s\s*=\s*(?:\([^;=]*?\)\s*)?(?:malloc|calloc)" % re.escape(x), lbody)):
+                    return     # allocated per iteration inside the body
+                if r is None:
+                    wroots.add("ptr:%s" % x)
+                elif r[0] == "param":
+                    wroots.add("param:%d" % r[1])
+                else:
+                    wroots.add("temp:%s:%s" % (r[1], r[2]))
+
+            for x, idx in _writes(lbody):
+                if x in ("for", "if", "while", "return") or (x not in decls and x not in inner_decl and not any(p_ == x for p_, _ in params)):
+                    continue
+                kind = inner_decl.get(x) or decls.get(x) or "pointer"
+                classify(x, direct_assign=(not idx) or kind == "array")
+            for g, args in _calls(lbody, funcs):
+                for k in wp.get(g, ()):
+                    if k < len(args):
+                        x = _root(args[k])
+                        if x is None:
+                            continue
+                        kind = inner_decl.get(x) or decls.get(x)
+                        if kind in ("scalar", "array"):
+                            if x not in private:
+                                shared_locals.add(x)
+                        else:
+                            classify(x, direct_assign=False)
+            rec = dict(file=f["file"], function=n, entries=entries(n), directive=directive, loop_var=var,
+                       bound=_canon_expr(bound, params, var), cond=_canon_expr(cond, params, var) if cond else "",
+                       other_clauses=other, shared_written_locals=sorted(shared_locals), shared_written_roots=sorted(wroots),
+                       thread_private=sorted(private))
+            rec["key"] = "%s|%s|%s|%s|if(%s)|%s|shared-locals[%s]|writes[%s]" % (
+                f["file"], ",".join(rec["entries"]), directive, rec["bound"], rec["cond"], ",".join(other),
+                ",".join(rec["shared_written_locals"]), ",".join(rec["shared_written_roots"]))
+            prag.append(rec)
+    prag.sort(key=lambda r: r["key"])
+    mall.sort(key=lambda r: r["key"])
+    return prag, mall
